@@ -369,6 +369,19 @@ package ugo
 //@ ensures[nil]  st == nil ==> r == nil
 //@ property C13
 
+// The copy handed to a module's table has exactly the names of the original
+// (completeness needs the visited set of the range loop).
+//@ func copyMapStringSet
+//@ params m
+//@ results n
+//@ ensures[nil]   (m == nil) == (n == nil)
+//@ ensures[same]  forall k string :: specInSet(n, k) == specInSet(m, k)
+//@ ensures[fresh] m != nil ==> !verifrt.SameRef(m, n)
+//@ loop 0 invariant n != nil && m != nil && !verifrt.SameRef(m, n)
+//@ loop 0 invariant forall k string :: specInSet(n, k) == verifrt.Visited(m, k)
+//@ loop 0 invariant forall k string :: verifrt.Visited(m, k) ==> specInSet(m, k)
+//@ property C13
+
 // Root table: a cached builtin symbol exists only for names that are not
 // disabled; resolving returns a builtin only for such names; disabling names
 // re-establishes the invariant (the cache is purged).
@@ -535,7 +548,7 @@ package ugo
 //@ ensures[share] verifrt.SameRef(vm.constants, v.root.bytecode.Constants) && verifrt.SameRef(vm.bytecode.Constants, v.root.bytecode.Constants) && verifrt.SameRef(vm.modulesCache, v.root.modulesCache) && vm.noPanic == v.root.noPanic && vm.pool.root == v.root
 //@ ensures[reg]   specPoolHas(v, vm)
 //@ modifies vm.bytecode.FileSet, vm.bytecode.Constants, vm.bytecode.NumModules, vm.bytecode.Main, vm.constants, vm.modulesCache, vm.pool, vm.noPanic, v.vms, v.vms[*]
-//@ property C14
+//@ property C14 C12
 
 //@ func (*vmPool)._release
 //@ params v vm
